@@ -183,6 +183,59 @@ def spec_v(items, lines_of):
             'views': [[v[0], v[1], v[2], [[k, x] for k, x in v[3].items()], v[4]] for v in views]}
 
 
+def valid_items(kind, items):
+    """The item list still renders to a VALID file (every section keeps what makes it complete)."""
+    secs, cur = [], None
+    for it in items:
+        if it[0] == 'hdr':
+            cur = []
+            secs.append(cur)
+        elif cur is not None:
+            cur.append(it)
+        elif it[0] in ('prop', 'filter', 'desc', 'svar'):
+            return False
+    if not secs:
+        return False
+    for sec in secs:
+        if kind == 'm':
+            keys = [it[1] for it in sec]
+            if 'match' not in keys or not ('category' in keys or 'tags' in keys):
+                return False
+            if 'category' not in keys and not any(split_tags_spec(it[2]) for it in sec if it[1] == 'tags'):
+                return False
+        elif not any(it[0] == 'filter' for it in sec):
+            return False
+    return True
+
+
+def shrink_items(kind, items, rejected):
+    """Delete items of a valid file while it stays valid and is still misread in the same way."""
+    from_spec = spec_m if kind == 'm' else spec_v
+
+    def fails(its):
+        ls = [render(i) for i in its]
+        r = impl_one(kind, ls)
+        if 'exc' in r or (not r.get('ok')) != rejected:
+            return False
+        return canon(kind, r) != canon(kind, from_spec(its, list(range(1, len(ls) + 1))))
+    items = list(items)
+    changed = True
+    while changed:
+        changed = False
+        for j in range(len(items) - 1, -1, -1):
+            cand = items[:j] + items[j + 1:]
+            # deleting a header deletes its section
+            if items[j][0] == 'hdr':
+                k = j + 1
+                while k < len(items) and items[k][0] != 'hdr':
+                    k += 1
+                cand = items[:j] + items[k:]
+            if valid_items(kind, cand) and fails(cand):
+                items, changed = cand, True
+                break
+    return items
+
+
 def erase_lines(kind, r):
     """Result with the line numbers removed (what layout edits that insert lines must preserve)."""
     if not r.get('ok'):
@@ -724,7 +777,7 @@ def build_cases(seed, tier):
             items = (gen_m_items if kind == 'm' else gen_v_items)(rnd, nsec=(3 if b % 7 == 0 else None))
             lines = [render(i) for i in items]
             lo = list(range(1, len(lines) + 1))
-            base = add(kind=kind, lines=lines, role='base', spec=(spec_m if kind == 'm' else spec_v)(items, lo), nitems=len(items))
+            base = add(kind=kind, lines=lines, role='base', spec=(spec_m if kind == 'm' else spec_v)(items, lo), nitems=len(items), items=items)
             for nm, new, lm in layout_edits(kind, items, lines, rnd, per_kind=per_kind):
                 add(kind=kind, lines=new, role='layout', base=base, edit=nm, linemap=lm)
             errs = []
@@ -821,9 +874,16 @@ def main(tier):
             continue
         if c['role'] == 'base':
             if canon(kind, r) != canon(kind, c['spec']):
-                report('spec', {'kind': 'counterexample', 'check': 'spec', 'file_kind': kind, 'lines': lines, 'observed': r,
-                                'expected': c['spec'], 'obligation': 'c17_one_rule_per_section / c17_exactly_stated_properties'},
-                       'C17/valid-file-misread')
+                sig = f'C17/valid-file-misread-{kind}-' + ('rejected' if not r.get('ok') else 'wrong-result')
+                if sig not in seen_sig:
+                    seen_sig.add(sig)
+                    its = shrink_items(kind, c['items'], rejected=not r.get('ok'))
+                    sl = [render(i) for i in its]
+                    sp = (spec_m if kind == 'm' else spec_v)(its, list(range(1, len(sl) + 1)))
+                    report('spec', {'kind': 'counterexample', 'check': 'spec', 'file_kind': kind, 'lines': sl, 'observed': impl_one(kind, sl),
+                                    'expected': sp, 'obligation': 'c17_one_rule_per_section / c17_exactly_stated_properties',
+                                    'why': 'a valid file is ' + ('rejected' if not r.get('ok') else 'read with other properties than it states'),
+                                    'shrunk_from': len(lines)}, sig)
         elif c['role'] in ('layout', 'layout_err'):
             b = cases[c['base']]
             desc = desc_of_edit(b['lines'], lines, c['linemap'])
